@@ -20,7 +20,7 @@ use wasmparser::{Parser, Payload};
 
 const MARKER: i32 = 24301;
 #[derive(Clone, Copy, Debug)]
-pub struct DCfg { pub version: u16, pub one_seq: bool, pub file0: bool }
+pub struct DCfg { pub version: u16, pub one_seq: bool, pub file0: bool, pub pair_seq: bool }
 
 fn n_imp_funcs(a: &AMod) -> usize { a.imports.iter().filter(|i| matches!(i.2, AImportKind::Func(_))).count() }
 fn line_of(fi: usize, k: usize) -> u64 { (fi * 100000 + k + 1) as u64 }
@@ -41,6 +41,10 @@ pub fn synthesize(wasm: &[u8], a: &AMod, c: DCfg) -> Option<Vec<u8>> {
         program.begin_sequence(Some(Address::Constant(base)));
         for (fi, f) in a.code.iter().enumerate() { emit_rows(&mut program, fi, f, base); }
         program.end_sequence(rel(a.code.last().unwrap().range.1) - base);
+    } else if c.pair_seq {
+        // one sequence per two consecutive functions
+        let mut fi = 0; while fi < a.code.len() { let hi = (fi + 2).min(a.code.len()); let base = rel(a.code[fi].range.0); program.begin_sequence(Some(Address::Constant(base)));
+            for j in fi..hi { emit_rows(&mut program, j, &a.code[j], base); } program.end_sequence(rel(a.code[hi - 1].range.1) - base); fi = hi; }
     } else {
         for (fi, f) in a.code.iter().enumerate() { let base = rel(f.range.0); program.begin_sequence(Some(Address::Constant(base))); emit_rows(&mut program, fi, f, base); program.end_sequence(rel(f.range.1) - base); }
     }
@@ -110,7 +114,29 @@ pub fn read_dwarf(b: &[u8]) -> Option<DRead> {
     Some(DRead { rows, subs })
 }
 
-struct Run { out: Vec<u8>, pm: irdump::ParseMaps, em: irdump::EmitMaps, tables: String, probes: Vec<String> }
+/// the instruction stream of the (single) input line program exactly as walrus' convert_line_program iterates over it,
+/// printed as a Coq `list lin`
+pub fn line_stream(b: &[u8]) -> Option<String> {
+    let mut secs = std::collections::HashMap::new();
+    for p in Parser::new(0).parse_all(b) { if let Ok(Payload::CustomSection(c)) = p { secs.insert(c.name().to_string(), c.data().to_vec()); } }
+    let load = |id: gimli::SectionId| -> Result<std::borrow::Cow<[u8]>, gimli::Error> { Ok(secs.get(id.name()).cloned().unwrap_or_default().into()) };
+    let dwarf_cow = gimli::Dwarf::load(load).ok()?;
+    let dwarf = dwarf_cow.borrow(|s| gimli::EndianSlice::new(s, LittleEndian));
+    let mut units = dwarf.units(); let h = units.next().ok()??; if units.next().ok()?.is_some() { return None; }
+    let unit = dwarf.unit(h).ok()?; let mut prog = unit.line_program.clone()?;
+    let header = prog.header().clone();
+    let mut row = gimli::read::LineRow::new(&header); let mut instrs = header.instructions(); let mut out = vec![];
+    while let Some(ins) = instrs.next_instruction(&header).ok()? {
+        match ins {
+            gimli::read::LineInstruction::SetAddress(v) => { out.push(format!("LSetAddr {}", v)); row.execute(gimli::read::LineInstruction::SetAddress(0), &mut prog); }
+            gimli::read::LineInstruction::DefineFile(_) => return None,
+            _ => if row.execute(ins, &mut prog) { out.push(format!("LRow {} {} {}", row.address(), row.end_sequence(), row.line().map(|l| l.get()).unwrap_or(0))); row.reset(&header); }
+        }
+    }
+    Some(format!("[{}]", out.join("; ")))
+}
+
+struct Run { out: Vec<u8>, pm: irdump::ParseMaps, em: irdump::EmitMaps, tables: String, probes: Vec<String>, start: usize }
 
 /// parse with DWARF, apply the variant, emit; also collects the classifier tables and probe results (hooks) for the Coq side
 fn run_walrus(input: &[u8], variant: u8, seed: u64, ain: &AMod) -> std::result::Result<Run, String> {
@@ -140,7 +166,7 @@ fn run_walrus(input: &[u8], variant: u8, seed: u64, ain: &AMod) -> std::result::
     for a in &addrs { for incl in [true, false] { let (c, x, y) = walrus::verif_hooks::find_address(&m.funcs, *a, incl); probes.push(format!("({}, {}, ({}, {}, {}))", a, incl, c, x, y)); } }
     let em = em.lock().unwrap().clone();
     let tables = format!("{} [{}] [{}]", tables, ctv.pairs.iter().map(|(l, p)| format!("({}, {})", l, p)).collect::<Vec<_>>().join("; "), ctv.ranges.iter().map(|(f, s, e)| format!("({}, ({}, {}))", f, s, e)).collect::<Vec<_>>().join("; "));
-    Ok(Run { out, pm, em, tables, probes })
+    Ok(Run { out, pm, em, tables, probes, start: ctv.code_section_start })
 }
 
 pub fn main(args: &[String]) {
@@ -148,6 +174,8 @@ pub fn main(args: &[String]) {
     let mut r = Rng::new(seed);
     let header = "From WV Require Import Model.Common Model.Dwarf Run.DwarfRun.\nOpen Scope N_scope.";
     let mut w = CaseWriter::new(out_dir, "c10", header, "dcase", "check_dwarf", 6);
+    let header_l = "From WV Require Import Model.Common Model.Dwarf Model.LineProg Run.LineProgRun.\nOpen Scope N_scope.";
+    let mut wl = CaseWriter::new(out_dir, "c10l", header_l, "lcase", "check_lines", 6);
     let feats = env::walrus_features(false);
     let mut viol: Vec<Json> = vec![];
     let mut inputs: Vec<(String, Vec<u8>)> = vec![];
@@ -157,6 +185,9 @@ pub fn main(args: &[String]) {
         wat += " (func $unused (result i32) i32.const 99 i32.const 98 drop)\n (func (export \"dead\") (result i32) (local i32 i64) i32.const 5 return i32.const 6 drop nop i32.const 7)\n (func (export \"ifs\") (param i32) (result i32) local.get 0 if (result i32) i32.const 1 else i32.const 2 end local.get 0 if nop end))";
         if let Ok(b) = wat::parse_str(&wat) { inputs.push((format!("sized-{}f-{}", nf, big), b)); } }
     if let Ok(b) = wat::parse_str("(module (func (export \"a\") (result i32) i32.const 1) (func (export \"lead\") (param i32) (result i32) nop local.get 0 i32.const 1 i32.add) (func (export \"b\") (result i32) i32.const 2 i32.const 3 drop))") { inputs.push(("leading-nop".into(), b)); }
+    // one sequence over all functions where GC removes the LAST / the FIRST function of the input (the end_sequence row / the sequence base then has no image)
+    if let Ok(b) = wat::parse_str("(module (func (export \"a\") (result i32) i32.const 1 i32.const 2 drop) (func (export \"b\") (result i32) i32.const 3) (func $unused_last (result i32) i32.const 4 i32.const 5 drop))") { inputs.push(("last-function-unused".into(), b)); }
+    if let Ok(b) = wat::parse_str("(module (func $unused_first (result i32) i32.const 4 i32.const 5 drop) (func (export \"a\") (result i32) i32.const 1 i32.const 2 drop) (func (export \"b\") (result i32) i32.const 3))") { inputs.push(("first-function-unused".into(), b)); }
     let n_fixed_before_boundary = inputs.len();
     inputs.extend(c11::boundary_bodies());
     let n_fixed = inputs.len();
@@ -164,21 +195,21 @@ pub fn main(args: &[String]) {
     let gcfg = GenCfg { profile: Profile::Full, max_funcs: 4, max_depth: 3, seq_len: 6, names: false, customs: false, start: false, active_segments: true };
     let mut k = 0; while k < n_gen { let (wasm, _) = gen::module(&mut r, &tab, &gcfg); if amod::validate(&wasm, feats).is_err() { continue; } inputs.push((format!("gen{}", k), wasm)); k += 1; }
     let (mut n_cases, mut n_rows, mut n_subs, mut n_panics) = (0u64, 0u64, 0u64, 0u64); let mut cfg_hist: std::collections::BTreeMap<String, u64> = Default::default();
-    let dcfgs = [DCfg { version: 4, one_seq: false, file0: false }, DCfg { version: 5, one_seq: false, file0: false }, DCfg { version: 4, one_seq: true, file0: false }, DCfg { version: 5, one_seq: false, file0: true }, DCfg { version: 5, one_seq: true, file0: false }];
+    let dcfgs = [DCfg { version: 4, one_seq: false, file0: false, pair_seq: false }, DCfg { version: 5, one_seq: false, file0: false, pair_seq: false }, DCfg { version: 4, one_seq: true, file0: false, pair_seq: false }, DCfg { version: 5, one_seq: false, file0: true, pair_seq: false }, DCfg { version: 5, one_seq: true, file0: false, pair_seq: false }, DCfg { version: 4, one_seq: false, file0: false, pair_seq: true }];
     for (idx, (name, wasm)) in inputs.iter().enumerate() {
         let a0 = match amod::decode(wasm) { Ok(a) => a, Err(_) => continue };
         for (ci, dc) in dcfgs.iter().enumerate() {
             if idx >= n_fixed && (idx + ci) % 3 != 0 { continue; }   // generated modules rotate through the configurations
-            if idx >= n_fixed_before_boundary && idx < n_fixed && ci != 0 && ci != 2 { continue; }   // size-boundary modules: v4 per function and v4 one sequence   // generated modules rotate through the configurations
+            if idx >= n_fixed_before_boundary && idx < n_fixed && ci != 0 && ci != 2 && ci != 5 { continue; }   // size-boundary modules: v4 per function and v4 one sequence   // generated modules rotate through the configurations
             let input = match synthesize(wasm, &a0, *dc) { Some(x) => x, None => continue };
             let ain = amod::decode(&input).unwrap(); let din = match read_dwarf(&input) { Some(d) => d, None => continue };
             for variant in [0u8, 1, 2] {
-                let vname = format!("{} [dwarf v{}{}{}]{}", name, dc.version, if dc.one_seq { ", one sequence over all functions" } else { "" }, if dc.file0 { ", rows name file 0" } else { "" }, ["", " (after gc)", " (markers inserted)"][variant as usize]);
-                *cfg_hist.entry(format!("v{}{}{}/{}", dc.version, if dc.one_seq { "+oneseq" } else { "" }, if dc.file0 { "+file0" } else { "" }, variant)).or_default() += 1;
+                let vname = format!("{} [dwarf v{}{}{}]{}", name, dc.version, if dc.one_seq { ", one sequence over all functions" } else if dc.pair_seq { ", one sequence per two functions" } else { "" }, if dc.file0 { ", rows name file 0" } else { "" }, ["", " (after gc)", " (markers inserted)"][variant as usize]);
+                *cfg_hist.entry(format!("v{}{}{}/{}", dc.version, if dc.one_seq { "+oneseq" } else if dc.pair_seq { "+pairseq" } else { "" }, if dc.file0 { "+file0" } else { "" }, variant)).or_default() += 1;
                 let mk = |class: &str, what: String| Json::obj(vec![("class", Json::s(class)), ("props", Json::s("C10")), ("what", Json::s(format!("{}: {}", vname, what))), ("input", Json::s(crate::c03::hex(&input)))]);
                 let sd = r.below(1 << 30);
                 let run = match catch(|| run_walrus(&input, variant, sd, &ain)) { Some(Ok(x)) => x, Some(Err(e)) => { viol.push(mk("dwarf-parse-error", e)); continue; }
-                    None => { n_panics += 1; let class = if dc.file0 { "dwarf-emit-panics:v5-row-names-file-0" } else if dc.one_seq { "dwarf-emit-panics:sequence-spanning-functions" } else { "dwarf-emit-panics" };
+                    None => { n_panics += 1; let class = if dc.file0 { "dwarf-emit-panics:v5-row-names-file-0" } else if dc.one_seq || dc.pair_seq { "dwarf-emit-panics:sequence-spanning-functions" } else { "dwarf-emit-panics" };
                         viol.push(Json::obj(vec![("class", Json::s(class)), ("props", Json::s("C10 C02")), ("what", Json::s(format!("{}: parse/emit with generate_dwarf panics on well-formed DWARF", vname))), ("input", Json::s(crate::c03::hex(&input)))])); continue; } };
                 if variant == 2 && amod::validate(&run.out, feats).is_err() { continue; }
                 if let Err(e) = amod::validate(&run.out, feats) { if !(variant == 1 && e.contains("undeclared function reference")) { viol.push(Json::obj(vec![("class", Json::s("output-invalid-with-dwarf")), ("props", Json::s("C02 C10")), ("what", Json::s(format!("{}: the module emitted with generate_dwarf does not validate: {}", vname, e))), ("input", Json::s(crate::c03::hex(&input)))])); } }
@@ -201,7 +232,7 @@ pub fn main(args: &[String]) {
                 // per input function: why its debug info may legitimately be hard to carry over (recorded findings are keyed by these)
                 let leb = |n: usize| -> usize { let mut l = 1; let mut x = n >> 7; while x > 0 { l += 1; x >>= 7; } l };
                 let explain = |i: usize| -> &'static str {
-                    if dc.one_seq { return "sequence-spanning-functions"; }
+                    if dc.one_seq || dc.pair_seq { return "sequence-spanning-functions"; }
                     let fa = &ain.code[i]; let mask = crate::body::live_mask(&fa.ops);
                     if let Some(fb) = fout[i] {
                         if !mask.first().copied().unwrap_or(true) { return "first-instruction-of-function-removed"; }
@@ -215,6 +246,9 @@ pub fn main(args: &[String]) {
                     Some(v) => note("line-rows-wrong", fi, format!("row for line {} (instruction {} of input function {}) has address {:?}, the instruction starts at {}", line, line % 100000 - 1, fi, v, want)),
                     None => note("line-rows-wrong", fi, format!("the row for line {} (instruction {} of input function {}) is missing, the instruction is emitted at {}", line, line % 100000 - 1, fi, want)) } }
                 for line in &removed { let fi = (*line / 100000) as usize; if let Some(v) = got.get(line) { for x in v { if *x != 0xFFFF_FFFF && out_starts.contains(x) { note("line-rows-wrong", fi, format!("line {} belongs to code that was removed, but its row points at {} where another instruction starts", line, x)); } } } }
+                // every emitted sequence is terminated, and addresses do not decrease within a sequence
+                if let Some(last) = dout.rows.last() { if !last.2 { note("line-sequence-not-terminated", 0, format!("the emitted line program ends inside a sequence (last row at {}, line {})", last.0, last.1)); } }
+                { let mut prev: Option<u64> = None; for (addr, line, end) in &dout.rows { if let Some(p) = prev { if *addr < p { note("line-sequence-not-monotone", 0, format!("row for line {} at {} follows a row at {} in the same sequence", line, addr, p)); } } prev = if *end { None } else { Some(*addr) }; } }
                 // subprograms
                 for (i, fa) in ain.code.iter().enumerate() { n_subs += 1; let nm = format!("f{}", i); let so = dout.subs.iter().find(|s| s.0 == nm);
                     match (fout[i], so) {
@@ -225,11 +259,15 @@ pub fn main(args: &[String]) {
                 for (class, (n, first)) in by_class { viol.push(mk(&class, format!("{} wrong, first: {}", n, first))); }
                 // ---- Coq case: classifier tables + probes (only for small modules)
                 if run.probes.len() < 900 && run.tables.len() < 20000 { w.push(&format!("Build_dcase {} [{}]", run.tables, run.probes.join("; "))); }
+                // ---- Coq case: the line program (input instruction stream, tables of this emission, rows read back)
+                if run.tables.len() < 20000 && dout.rows.len() < 700 { if let Some(ls) = line_stream(&input) {
+                    let rows = dout.rows.iter().map(|(a, l, e)| format!("({}, {}, {})", a, if *e { 0 } else { *l }, e)).collect::<Vec<_>>().join("; ");
+                    wl.push(&format!("Build_lcase {} {} {} [{}]", run.tables, run.start, ls, rows)); } }
             }
         }
     }
-    w.finish();
-    let meta = Json::obj(vec![("cases", Json::u(w.total)), ("emissions", Json::n(n_cases as f64)), ("inputs", Json::u(inputs.len())), ("rows_checked", Json::n(n_rows as f64)), ("subprograms_checked", Json::n(n_subs as f64)), ("panics", Json::n(n_panics as f64)),
+    w.finish(); wl.finish();
+    let meta = Json::obj(vec![("cases", Json::u(w.total)), ("line_program_cases", Json::u(wl.total)), ("emissions", Json::n(n_cases as f64)), ("inputs", Json::u(inputs.len())), ("rows_checked", Json::n(n_rows as f64)), ("subprograms_checked", Json::n(n_subs as f64)), ("panics", Json::n(n_panics as f64)),
         ("configurations", Json::obj(cfg_hist.iter().map(|(k, v)| (k.as_str(), Json::n(*v as f64))).collect())), ("oracle_violations", Json::Arr(viol))]);
     std::fs::write(format!("{}/meta.json", out_dir), meta.to_string()).unwrap();
 }
